@@ -44,6 +44,14 @@ try:
     ok = meta["demo_exit_without_change"] == 0 and meta["demo_exit_with_change"] != 0 and meta["suite_at_baseline"]
     meta["confirmed"] = ok
     meta["detected"] = c.returncode == 1
+    if meta["detected"]:
+        # a verdict on the changed tree only counts if the same check is quiet on the unchanged tree at this moment (a false alarm of
+        # the machinery would otherwise pass for a detection)
+        c0 = run(f"cd /verif && ./check {P} --tier quick", timeout=3000)
+        meta["clean_tree_exit_at_confirmation"] = c0.returncode
+        if c0.returncode != 0:
+            meta["detected"] = False
+            meta["detected_note"] = "the check also alarms on the unchanged tree (exit %d): verdict not counted" % c0.returncode
     if ok:
         out = f"/verif/seeded/{P}-{outn}"
         os.makedirs(out, exist_ok=True)
